@@ -144,9 +144,7 @@ def run(chk):
     chk.floor = 150
     n_cases = 0
     for q, params, variants in SCOPE:
-        if not repo.has(q):
-            raise AnalysisError("scope anchor %s vanished" % q)
-        fi = repo.func(q)
+        fi = public_func(repo, q)
         chk.analysed_unit(q)
         for flags in variants:
             s = analyse_with_arrays(eng, fi, params, flags)
@@ -188,6 +186,52 @@ def run(chk):
                             % (eng.unresolved, MAX_UNRESOLVED))
     # zero-expected rule needs a positive example that must fire on every run
     selfcheck(chk, eng)
+
+
+def public_func(repo, q):
+    """the function object the public name `q` is bound to: defined in the named module, or bound there by an import of a
+    function defined elsewhere in the package (`from .poly2d import Apply2DPolynomial` keeps esutil.wcsutil.Apply2DPolynomial
+    the same callable, so the property still quantifies over it).  Only a `def`/class in the module or an import binding is
+    followed; a name rebound by assignment or missing altogether is a vanished anchor."""
+    if repo.has(q):
+        return repo.func(q)
+    mname, _, name = q.rpartition(".")
+    m = repo.modules.get(mname)
+    if m is not None and name not in m.funcs and name not in m.classes and name not in m.consts \
+            and _module_level_import(m, name):
+        tgt = repo._follow(q)
+        if tgt != q and repo.has(tgt):
+            return repo.func(tgt)
+    raise AnalysisError("scope anchor %s vanished" % q)
+
+
+def _module_level_import(m, name):
+    """`name` is bound by an import statement executed at module level (also under a module-level if/try), and by nothing
+    else there: no assignment, del, def or class of that name"""
+    def stmts(body):
+        for st in body:
+            if isinstance(st, (ast.FunctionDef, ast.AsyncFunctionDef, ast.ClassDef)):
+                yield st
+                continue
+            yield st
+            for f in ("body", "orelse", "finalbody"):
+                yield from stmts(getattr(st, f, None) or [])
+            for h in getattr(st, "handlers", None) or []:
+                yield from stmts(h.body)
+    found = False
+    for st in stmts(m.tree.body):
+        if isinstance(st, (ast.Import, ast.ImportFrom)):
+            for al in st.names:
+                if (al.asname or al.name.split(".")[0]) == name:
+                    found = True
+        elif isinstance(st, (ast.FunctionDef, ast.AsyncFunctionDef, ast.ClassDef)):
+            if st.name == name:
+                return False
+        else:
+            for sub in ast.walk(st):
+                if isinstance(sub, ast.Name) and sub.id == name and isinstance(sub.ctx, (ast.Store, ast.Del)):
+                    return False
+    return found
 
 
 def analyse_with_arrays(eng, fi, params, flags):
